@@ -187,6 +187,11 @@ func (s *Server) sendTransaction(t Transaction) error {
 		return nil
 	}
 
+	// A transaction larger than io.Copy's buffer is written in several calls; hold the client's write lock
+	// so that concurrent senders cannot interleave their bytes with it.
+	client.writeMu.Lock()
+	defer client.writeMu.Unlock()
+
 	_, err := io.Copy(client.Connection, &t)
 	if err != nil {
 		return fmt.Errorf("failed to send transaction to client %v: %v", t.ClientID, err)
